@@ -8,6 +8,16 @@ ALL = [f'C{i:02d}' for i in range(1, 21)]
 
 # id -> (level text, level note, technique, design ref)
 CHECKS = {
+    'C09': (
+        'Bounded-exhaustive exploration of the real split_and(): every boolean term of a propositional + quantifier fragment up to the node bound (quick 6; thorough 6 with quantifiers, 7 without), as expression and as predicate, with the conjunction of the parts evaluated against the input on complete truth tables including empty quantifier domains, and an independent shape predicate on every part.',
+        'Reference evaluator is the trusted oracle; terms outside the fragment (arithmetic inside atoms, wider domains) are not explored.',
+        'bounded exhaustive term x valuation enumeration against a reference evaluator and a shape predicate',
+    ),
+    'C10': (
+        'Bounded-exhaustive exploration of the real refactor_reference(): every boolean term with alias atoms at every depth (bodies and domains of quantifiers, under not/implies/iff) up to the node bound (quick 5, thorough 6), for a present, a second and an absent alias, as expression and as predicate; equivalence on all valuations, alias-freeness of the first half and free-variable hygiene by independent walks over the lifted trees.',
+        'Reference evaluator and free-variable walk are the trusted oracle.',
+        'bounded exhaustive term x valuation enumeration against a reference evaluator and free-reference walk',
+    ),
     'C08': (
         'Bounded-exhaustive exploration of the real simplify(): every well-sorted term up to the node bound (quick 5, thorough 6) plus shape-directed families per visible shortcut, each evaluated before and after on every valuation of a small grid, under every iteration order the code can obtain from set() (deviation-bounded). Complete within the stated bounds; says nothing about larger terms or values outside the grid.',
         'Reference evaluator (exact rationals / python floats; set or bag reading of set literals; integer points of ranges) is the trusted oracle; a mismatch counts only if it persists under every admissible reading.',
